@@ -45,7 +45,7 @@ type cgCtx struct {
 	err     error
 }
 
-func leanStr(s string) string { return strconv.Quote(s) }
+func cgLeanStr(s string) string { return strconv.Quote(s) }
 
 func (c *cgCtx) fail(format string, a ...interface{}) string {
 	if c.err == nil {
@@ -81,7 +81,7 @@ func (c *cgCtx) conv(e ast.Expr, owner string, refs *[]string, depth int) string
 		if st, ok := spec.(*ast.StructType); ok {
 			c.addStruct(x.Name, st)
 			*refs = append(*refs, x.Name)
-			return ".named " + leanStr(x.Name)
+			return ".named " + cgLeanStr(x.Name)
 		}
 		return c.conv(spec, x.Name, refs, depth+1) // named non-struct type: its underlying type
 	case *ast.SelectorExpr:
@@ -91,9 +91,9 @@ func (c *cgCtx) conv(e ast.Expr, owner string, refs *[]string, depth int) string
 		}
 		full := pkg + "." + x.Sel.Name
 		if full == "json.RawMessage" {
-			return ".hole " + leanStr(full)
+			return ".hole " + cgLeanStr(full)
 		}
-		return ".ext " + leanStr(full)
+		return ".ext " + cgLeanStr(full)
 	case *ast.StarExpr:
 		return ".ptr (" + c.conv(x.X, owner, refs, depth+1) + ")"
 	case *ast.ArrayType:
@@ -114,7 +114,7 @@ func (c *cgCtx) conv(e ast.Expr, owner string, refs *[]string, depth int) string
 		name := owner + "!"
 		c.addStruct(name, x)
 		*refs = append(*refs, name)
-		return ".named " + leanStr(name)
+		return ".named " + cgLeanStr(name)
 	case *ast.FuncType:
 		return ".ext \"func\""
 	case *ast.ChanType:
@@ -188,7 +188,7 @@ func parseDirFiles(rel string) ([]*ast.File, error) {
 	return out, nil
 }
 
-func recvName(fd *ast.FuncDecl) string {
+func cgRecvType(fd *ast.FuncDecl) string {
 	if fd.Recv == nil || len(fd.Recv.List) == 0 {
 		return ""
 	}
@@ -237,7 +237,7 @@ func genConfigGraph() (string, error) {
 					c.specs[ts.Name.Name] = ts.Type
 				}
 			case *ast.FuncDecl:
-				if r := recvName(x); r != "" {
+				if r := cgRecvType(x); r != "" {
 					if c.methods[r] == nil {
 						c.methods[r] = map[string]bool{}
 					}
@@ -479,13 +479,13 @@ func genConfigGraph() (string, error) {
 		s := c.structs[n]
 		id := "s_" + strings.NewReplacer(".", "_", "!", "_anon").Replace(n)
 		names = append(names, id)
-		fmt.Fprintf(&b, "def %s : StructDecl := { name := %s, customMarshal := %v, customUnmarshal := %v, fields := [\n", id, leanStr(n), s.marsh, s.unmarsh)
+		fmt.Fprintf(&b, "def %s : StructDecl := { name := %s, customMarshal := %v, customUnmarshal := %v, fields := [\n", id, cgLeanStr(n), s.marsh, s.unmarsh)
 		for i, f := range s.fields {
 			sep := ","
 			if i == len(s.fields)-1 {
 				sep = ""
 			}
-			fmt.Fprintf(&b, "  { name := %s, json := %s, omitempty := %v, embedded := %v, ty := %s }%s\n", leanStr(f.name), leanStr(f.json), f.omitempty, f.embedded, f.ty, sep)
+			fmt.Fprintf(&b, "  { name := %s, json := %s, omitempty := %v, embedded := %v, ty := %s }%s\n", cgLeanStr(f.name), cgLeanStr(f.json), f.omitempty, f.embedded, f.ty, sep)
 		}
 		b.WriteString("] }\n")
 	}
@@ -493,28 +493,28 @@ func genConfigGraph() (string, error) {
 	b.WriteString("def root : String := \"effectiveConfig\"\n")
 	var q []string
 	for _, n := range reach {
-		q = append(q, leanStr(n))
+		q = append(q, cgLeanStr(n))
 	}
 	b.WriteString("/-- structs reachable from the root, in discovery order -/\ndef reachable : List String := [" + strings.Join(q, ", ") + "]\n\n")
-	b.WriteString("/-- DumpJSON marshals `<fullDumpFn>(conf)` (\"-\" = conf itself) -/\ndef fullDumpFn : String := " + leanStr(fullFn) + "\n")
+	b.WriteString("/-- DumpJSON marshals `<fullDumpFn>(conf)` (\"-\" = conf itself) -/\ndef fullDumpFn : String := " + cgLeanStr(fullFn) + "\n")
 	q = nil
 	for _, a := range copyAsg {
-		q = append(q, "("+leanStr(a.field)+", "+leanStr(a.fn)+")")
+		q = append(q, "("+cgLeanStr(a.field)+", "+cgLeanStr(a.fn)+")")
 	}
 	b.WriteString("/-- redactedCopy: `dst.F = f(src.F)` assignments, every other field is copied as is -/\ndef redactedCopyFields : List (String × String) := [" + strings.Join(q, ", ") + "]\n")
 	q = nil
 	for _, s := range secs {
-		q = append(q, "("+leanStr(s.typ)+", "+leanStr(s.fn)+", "+leanStr(s.field)+")")
+		q = append(q, "("+cgLeanStr(s.typ)+", "+cgLeanStr(s.fn)+", "+cgLeanStr(s.field)+")")
 	}
 	b.WriteString("/-- getMOSNConfigRedacted: (CfgType constant, function applied (\"-\" = none), field of conf) -/\ndef sections : List (String × String × String) := [" + strings.Join(q, ", ") + "]\n")
 	q = nil
 	for _, e := range eps {
-		q = append(q, "("+leanStr(e.param)+", "+leanStr(e.typ)+", "+fmt.Sprint(e.single)+")")
+		q = append(q, "("+cgLeanStr(e.param)+", "+cgLeanStr(e.typ)+", "+fmt.Sprint(e.single)+")")
 	}
 	b.WriteString("/-- admin ConfigDump: (query parameter, CfgType constant, single-object lookup by name) -/\ndef endpoints : List (String × String × Bool) := [" + strings.Join(q, ", ") + "]\n")
 	fmt.Fprintf(&b, "/-- ConfigDump without parameters calls configmanager.DumpJSON -/\ndef fullDumpViaDumpJSON : Bool := %v\n", usesDumpJSON)
-	b.WriteString("/-- const redactedPrivateKey -/\ndef placeholder : String := " + leanStr(placeholder) + "\n")
-	b.WriteString("/-- const privateKeyJSONKey: object key blanked inside untyped holes -/\ndef privateKeyJsonKey : String := " + leanStr(pkKey) + "\n")
+	b.WriteString("/-- const redactedPrivateKey -/\ndef placeholder : String := " + cgLeanStr(placeholder) + "\n")
+	b.WriteString("/-- const privateKeyJSONKey: object key blanked inside untyped holes -/\ndef privateKeyJsonKey : String := " + cgLeanStr(pkKey) + "\n")
 	b.WriteString("\nend MosnVerif.Gen.ConfigGraph\n")
 	return b.String(), nil
 }
